@@ -196,6 +196,7 @@ def run(ctx: Any, prog: Program) -> None:
     ctx.rule('C20.M2', 'text formats: keywords, quoting, escaping and line layout agree between writer and reader', floor=60)
     ctx.rule('C20.M4', 'scenes.image: table sorted by checksum before it is written; summary and data come from the same entry', floor=5)
     ctx.rule('C20.M5', 'enum name/number tables are complete and mutually inverse', floor=8)
+    m0_every_element_written(ctx, prog)
     m1_cmdseq(ctx, prog)
     m1_choreo(ctx, prog)
     m1_m4_scenes_image(ctx, prog)
@@ -206,6 +207,29 @@ def run(ctx: Any, prog: Program) -> None:
     m2_smd(ctx, prog)
     m2_curve_edges(ctx, prog)
     m5_tables(ctx, prog)
+
+
+def m0_every_element_written(ctx: Any, prog: Program) -> None:
+    """Writers of the scene and particle formats put every element of the collections they walk into the file: the readers rebuild the
+    collections from what is there.  A comprehension that filters `self.<collection>` before it is counted and written (channels without
+    events), or a `continue` in the loop that appends the children of a particle system, leaves representable content out."""
+    for mn, quals in (('choreo', None), ('particles', None)):
+        mod = prog.module(mn)
+        for q, fl in mod.all_funcs().items():
+            if not (q.split('.')[-1].startswith('export') or q.split('.')[-1] in ('save_scenes_image_sync',)):
+                continue
+            for f in fl:
+                for comp in [c for c in walk_no_nested(f) if isinstance(c, (ast.ListComp, ast.GeneratorExp))]:
+                    for g in comp.generators:
+                        if g.ifs and isinstance(g.iter, ast.Attribute) and dotted(g.iter.value) == 'self' and isinstance(comp.elt, ast.Name) and isinstance(g.target, ast.Name) and comp.elt.id == g.target.id:
+                            ctx.check('C20.M1' if 'binary' in q else 'C20.M2', False, mod, comp, f'{q} writes only the elements of self.{g.iter.attr} for which `{U(g.ifs[0])[:40]}`: the others are representable in the format and '
+                                      'the reader rebuilds the collection from the file, so they are gone after a round trip', func=q, text=f'{q}: every element of self.{g.iter.attr} is written')
+                for lp in [l for l in walk_no_nested(f) if isinstance(l, ast.For) and isinstance(l.iter, ast.Attribute) and l.iter.attr == 'children']:
+                    for cont in [c for c in ast.walk(lp) if isinstance(c, ast.Continue)]:
+                        g_ = mod.parents.get(cont)
+                        if isinstance(g_, ast.If) and any(isinstance(x, ast.Compare) and isinstance(x.ops[0], (ast.Is, ast.Eq)) for x in ast.walk(g_.test)):
+                            ctx.check('C20.M2', False, mod, g_, f'{q} skips a child when `{U(g_.test)[:50]}`: the entry is in the children list of the system and the reader would return it - after export and parse the list is shorter',
+                                      func=q, text=f'{q}: every child is written')
 
 
 # ---- M1 cmdseq ------------------------------------------------------------------------------------------------------------------
@@ -1764,6 +1788,7 @@ def m5_tables(ctx: Any, prog: Program) -> None:
 
 
 MUTANTS: List[Dict[str, Any]] = [
+    {'id': 'actor_channels_without_events_dropped', 'file': 'choreo.py', 'find': "        file.write(struct.pack('<hB', add_to_pool(self.name), len(self.channels)))\n        for channel in self.channels:", 'replace': "        channels = [channel for channel in self.channels if channel.events]\n        file.write(struct.pack('<hB', add_to_pool(self.name), len(channels)))\n        for channel in channels:", 'expect': 'C20.M1', 'note': 'round 14'},
     {'id': 'smd_links_capped', 'file': 'smd.py', 'find': "                        for bone, weight in vert.links:\n", 'replace': "                        for bone, weight in sorted(vert.links, key=itemgetter(1))[:3]:\n", 'expect': 'C20.M2', 'note': 'round 12'},
     {'id': 'scene_sounds_written_sorted', 'file': 'choreo.py', 'find': "        for sound in entry.sounds:\n            file.write(struct.pack('<i', add_to_pool(sound)))", 'replace': "        for sound_ind in sorted(add_to_pool(sound) for sound in entry.sounds):\n            file.write(struct.pack('<i', sound_ind))", 'expect': 'C20.M1', 'note': 'round 12'},
     {'id': 'cmdseq_skips_disabled_commands', 'file': 'cmdseq.py', 'find': "    for name, commands in sequences.items():\n        file.write(pad_string(name, 128))", 'replace': "    for name, commands in sequences.items():\n        commands = list(filter(None, commands))\n        file.write(pad_string(name, 128))", 'expect': 'C20.M1', 'note': 'round 11'},
